@@ -697,3 +697,16 @@ func TrackRet[T any](kind string, v T) T {
 	Track(kind, v)
 	return v
 }
+
+// SortedKeys returns the keys of m in ascending order (rule R6: goat's own
+// map iterations are made order-deterministic in instrumented builds).
+func SortedKeys[M ~map[K]V, K interface {
+	~int | ~int32 | ~int64 | ~uint | ~uint32 | ~uint64 | ~string
+}, V any](m M) []K {
+	ks := make([]K, 0, len(m))
+	for k := range m {
+		ks = append(ks, k)
+	}
+	sort.Slice(ks, func(i, j int) bool { return ks[i] < ks[j] })
+	return ks
+}
